@@ -229,6 +229,8 @@ structure BaseWF (b : BaseType) : Prop where
   enumAtoms : ∀ a ∈ b.enum, IsAtomJ a
   /-- the degenerate `"enum": ["set", []]` (member present, no value) is not re-encoded -/
   enumSet : b.enumSet = !b.enum.isEmpty
+  /-- the decoder accepts the five atomic type names only, in the string and in the object form -/
+  atomic : atomicTypeNames.contains b.type = true
 
 theorem decodeEnum_encodeEnum (l : List J) (h : ∀ a ∈ l, IsAtomJ a) : decodeEnum (encodeEnum l) = .ok (l, !l.isEmpty) := by
   match l with
@@ -275,10 +277,11 @@ theorem baseType_roundtrip (b : BaseType) (hwf : BaseWF b) : decodeBaseType (enc
     split <;> rfl
   simp [List.lookup, hT, hEnum, optNum_num, optInt_jInt, optStr_str, bind, Outcome.bind, pure]
   have hes := hwf.enumSet
+  have hat := hwf.atomic
   cases b
   simp only [BaseType.mk.injEq, and_true]
-  simp only at hes
-  split <;> simp_all
+  simp only at hes hat
+  split <;> simp_all [atomicTypeNames]
 
 theorem notNull_some_obj (m : List (String × J)) : NotNull (some (J.obj m)) := trivial
 
@@ -686,6 +689,6 @@ theorem pinned_loses_minLength :
 
 /-! non-vacuity: a fully constrained base type meets the hypotheses -/
 example : BaseWF { type := "integer", enum := [.num 1, .num 2], enumSet := true, minInteger := some 0, maxInteger := some 10 } :=
-  ⟨by intro a ha; simp at ha; rcases ha with h | h <;> subst h <;> trivial, by simp⟩
+  ⟨by intro a ha; simp at ha; rcases ha with h | h <;> subst h <;> trivial, by simp, by decide⟩
 
 end Ovsdb.C12
